@@ -447,7 +447,7 @@ int main(int argc, char** argv) {
     ex.ctx.preempt_bound = opt.preempt_bound + sc.pb_extra;
     ex.Run(sc.Header(), [&] { RunScenario(sc); }, [&](bool done) { return Monitor(sc, done); });
   }
+  std::printf("D3-EXECUTIONS %llu\n", static_cast<unsigned long long>(gD3Seen));  // before the report: its parser ignores it
   ex.Report();
-  std::printf("D3-EXECUTIONS %llu\n", static_cast<unsigned long long>(gD3Seen));
   return ex.stats.violations == 0 ? 0 : 1;
 }
